@@ -104,6 +104,14 @@ func (c *Ctx) typeSwitches(pkgs ...string) []*tySwitch {
 								ts.after = "return-error"
 							}
 						}
+						// `return inst`: the function hands the switched value back unchanged (a transformer, not a consumer)
+						if len(ret.Results) == 1 && fd.Type.Results != nil && len(fd.Type.Results.List) == 1 {
+							if id, ok := unparen(ret.Results[0]).(*ast.Ident); ok && switchSubjectIs(info, sw, id) {
+								if rt := info.TypeOf(fd.Type.Results.List[0].Type); rt != nil && types.Identical(rt, info.TypeOf(id)) {
+									ts.after = "return-same"
+								}
+							}
+						}
 					} else {
 						ts.after = "statements"
 					}
@@ -113,6 +121,28 @@ func (c *Ctx) typeSwitches(pkgs ...string) []*tySwitch {
 		})
 	}
 	return out
+}
+
+// switchSubjectIs: the type switch `switch x := id.(type)` / `switch id.(type)` is over the variable id names.
+func switchSubjectIs(info *types.Info, sw *ast.TypeSwitchStmt, id *ast.Ident) bool {
+	var x ast.Expr
+	switch a := sw.Assign.(type) {
+	case *ast.AssignStmt:
+		if len(a.Rhs) == 1 {
+			x = a.Rhs[0]
+		}
+	case *ast.ExprStmt:
+		x = a.X
+	}
+	if x == nil {
+		return false
+	}
+	ta, ok := unparen(x).(*ast.TypeAssertExpr)
+	if !ok {
+		return false
+	}
+	subj, ok := unparen(ta.X).(*ast.Ident)
+	return ok && info.ObjectOf(subj) != nil && info.ObjectOf(subj) == info.ObjectOf(id)
 }
 
 func isNilIdent(e ast.Expr) bool {
@@ -151,6 +181,8 @@ func ruleTypeSwitchComplete(c *Ctx, rule string, pkgs []string, ifaceFilter func
 			ob := r.Ob(rule, fmt.Sprintf("%s: case for %s as %s", name, t, ifn), c.pos(ts.sw.Pos()))
 			if ts.cases[t] {
 				ob.OKnt("produced in " + strings.Join(uniq(p[t]), ", ") + "; handled by a case of the same pointer-ness")
+			} else if !ts.hasDef && ts.after == "return-same" {
+				ob.OK("no case: the function hands such a value back unchanged (it transforms some types and passes the others through)")
 			} else {
 				alt := strings.TrimPrefix(t, "*")
 				if !strings.HasPrefix(t, "*") {
@@ -188,6 +220,10 @@ func ruleTypeSwitchTotal(c *Ctx, rule string) {
 		name := ts.pkg + "." + funcDeclName(ts.fd)
 		ob := r.Ob(rule, name+": unmatched value becomes an error", c.pos(ts.sw.Pos()))
 		info := c.info("bytecode")
+		if !ts.hasDef && ts.after == "return-same" {
+			ob.OK("the function hands an unmatched value back unchanged: it transforms, it does not accept or reject")
+			continue
+		}
 		// semantic decision first: fold the function with a nil node (a nil interface matches no case)
 		if verdict, detail, ok := c.foldWithNilNode(ts); ok {
 			if verdict {
